@@ -9,7 +9,7 @@
 (* signatures).                                                            *)
 (*                                                                         *)
 (* The verifier is a transcription of src/tree/merkle_tree.rs verify_tree, *)
-(* verify_upgrade (full upgrades; additional nodes are not modelled), the comparison     *)
+(* verify_upgrade (incl. the additional nodes of partial upgrades), the comparison      *)
 (* with the locally stored node in verify_proof, and commitable.  The      *)
 (* honest proof for a request is *derived from the verifier*: it is the    *)
 (* list of nodes the verifier asks its queue for when every answer is the  *)
